@@ -9,28 +9,6 @@ only, once — the element `n+1` that `Header` pulls to find out that it is done
 -/
 namespace Pipeline
 
-/-- operators that hand on one answer per answer taken -/
-def Op.oneOne : Op → Bool
-  | .map _ => true
-  | .peek => true
-  | .accumulate _ _ => true
-  | .head _ => true
-  | .buffer _ => true
-  | .parmap _ _ _ _ => true
-  | _ => false
-
-def Op.isHead : Op → Bool
-  | .head _ => true
-  | _ => false
-
-/-- per-operator look-ahead constant: `map`/`peek`/`accumulate` 0, `head` 1, `buffer n` n+2,
-    `parmap` 2·concurrency+3 (the last two imported, see `lookahead`) -/
-def slack (op : Op) : Nat := if op.isHead then 1 else lookahead op
-
-def slackAll : List Op → Nat
-  | [] => 0
-  | op :: ops => slack op + slackAll ops
-
 def failBit : Mode → Nat
   | .fail _ => 1
   | _ => 0
